@@ -58,7 +58,12 @@ def encode_world(w):
         after, err = w["sinks"][which]
         out.append(frame("k", "%s %d %d" % (which, after, err)))
     tabs = w.get("tabs") or {}
+    sigints = set(int(x) for x in (w.get("sigints") or []))
+    if w.get("stdin_delay_ms") or w.get("discard_stdout"):
+        out.append(frame("d", "%d %d" % (w.get("stdin_delay_ms", 0), 1 if w.get("discard_stdout") else 0)))
     for i, u in enumerate(w.get("user", [])):
+        if i in sigints:
+            out.append(frame("j"))
         for pos in tabs.get(str(i), tabs.get(i, [])):
             out.append(frame("b", "%d" % pos))
         out.append(frame("z") if u is None else frame("u", u))
@@ -113,6 +118,9 @@ class Run:
         first = t[0].split(" ", 1) if t else ["", ""]
         if wk == "signaled" and wc == 14:
             return ("hang", "SIGALRM")      # also when the event log overflowed on the way: endless output is a hang
+        if wk == "signaled" and wc == 2 and any(c == "sigint" for s_ in self.segs for c in s_.seam) \
+                and not any(c == "sigint-returned" for s_ in self.segs for c in s_.seam):
+            return ("interrupted", "SIGINT from the user")     # Ctrl-C ended the session: the user's choice, not a crash
         if self.overflow:
             return ("overflow", "")
         if wk == "signaled":
@@ -128,7 +136,7 @@ class Run:
         return ("unknown", "%s %s %r" % (wk, wc, t))
 
     def normal(self):
-        return self.classify()[0] in ("return", "exit")
+        return self.classify()[0] in ("return", "exit", "interrupted")
 
     def exit_code(self):
         k, d = self.classify()
